@@ -28,7 +28,7 @@ P = {
              text='Array and ragged histories with metadata creation/deletion and overwrite re-creation, biased to cross 5/6/7 subarrays; after every step each README (array, ragged, values, indices) must be byte-identical to what Darr regenerates from a fresh handle on a copy of the directory, must contain every offered readcode() snippet, the dimensions/length and the subarray count, every listed subarray must exist with its current length, and metadata.json is mentioned iff metadata exist.',
              note='uses the private _update_readmetxt of a fresh handle on a copy as the regeneration entry point (absence = HARNESS-ERROR)', ref='5 C08'),
  'C09': dict(cat='fault_enumeration', tech=TECH + '; kernel RLIMIT_FSIZE write refusal at byte offsets, ENOSPC seam on the n-th tofile, failing iterables',
-             text='Start state from a seeded prefix history (incl. empty by creation and by truncation), then one append/iterappend of 0-6 chunks under one sampled fault: iterable raises an Exception or a non-Exception BaseException / yields a chunk of bad shape, bad rank (also without elements) or unconvertible type at position k; RLIMIT_FSIZE at chunk boundary +-1, mid element, mid row (through the real numpy tofile + stdio path); ENOSPC after b bytes of the n-th tofile; fault-free control. Oracle: raised, opens, decodes, equals original ++ completed chunks, live = fresh (a fault-free call that raises must leave some whole-chunk prefix).',
+             text='Start state from a seeded prefix history (incl. empty by creation and by truncation), then one append/iterappend of 0-6 chunks under one sampled fault (one call in five inside an open_array() block after successful appends in the same block): iterable raises an Exception or a non-Exception BaseException / yields a chunk of bad shape, bad rank (also without elements) or unconvertible type at position k; RLIMIT_FSIZE at chunk boundary +-1, mid element, mid row (through the real numpy tofile + stdio path); ENOSPC after b bytes of the n-th tofile; fault-free control. Oracle: raised, opens, decodes, equals original ++ completed chunks, live = fresh (a fault-free call that raises must leave some whole-chunk prefix).',
              note='fault positions are sampled, not enumerated exhaustively; RLIMIT_FSIZE is process-wide so the data file is made the only file above the limit', ref='5 C09'),
  'C10': dict(cat='fault_enumeration', tech=TECH + '; kernel RLIMIT_FSIZE aimed at values or indices file, ENOSPC seam per file, index overflow, failing iterables',
              text='As C09 for RaggedArray.append/iterappend: iterable faults, index overflow with int8/uint8/int16 index types, RLIMIT_FSIZE aimed at the values file or (1100+ one-byte subarrays) at the indices file, ENOSPC on the n-th values write or n-th index-row write; control batch. Oracle: raised, opens, independent ragged decoder accepts, subarrays = original ++ completely appended, live = fresh.',
